@@ -1,4 +1,5 @@
 import Orx.KSRun
+import Orx.GenThms
 /-! # C10 into_seq_iter returns exactly the undelivered remainder, in order -/
 namespace Orx.Props.C10
 open Orx Orx.KS
@@ -30,5 +31,15 @@ theorem remainder_after_skip (len c : Nat) : remainder len (Atom.skip.next len c
 /-- range: the remainder never contains an out-of-range value, whatever the counter (also a wrapped one) -/
 theorem range_remainder_in_range (s : KSrc) (ctr p : Nat) (hp : p ∈ remainder s.len ctr) : p < s.len := by
   simp [remainder, rangeList] at hp; omega
+
+
+/-! ## The source itself (translated on every run) -/
+open Orx.RS Orx.Gen Orx.GenThms in
+/-- **`into_seq_iter` of slice and range as in the source**: one load `c`; the remainder is the positions
+`[min(c, len), len)` (slice: `iter().skip(c)`), for a range the values `[start + min(c, len), stop)` -/
+theorem source_into_seq_is_remainder (len a b c : Nat) (evs dr) (ha : a < W) (hb : b < W) :
+    Slice.into_seq_iter (slice len) (st c evs dr) = .ok ⟨min c len, len⟩ (st c (evs ++ [.ld (.ctr 0) .acquire c]) dr) ∧
+    Range.into_seq_iter (range a b) (st c evs dr) = .ok ⟨a + min c (b - a), b⟩ (st c (evs ++ [.ld (.ctr 0) .acquire c]) dr) :=
+  ⟨slice_into_seq_iter len c evs dr, range_into_seq_iter a b c evs dr ha hb⟩
 
 end Orx.Props.C10
